@@ -115,9 +115,11 @@ func (fr *Frame) modStore(addr ssa.Value, ms *modSet, bind map[*ssa.FreeVar]ssa.
 			el = t.Elem().Underlying().(*types.Array).Elem()
 		}
 		// the backing array of the indexed slice / array (a slice value stands for its base)
-		ms.at(heapSliceName(w.sortOf(el)), resolveBind(a.X, bind))
+		ms.at(heapSliceNameT(el), resolveBind(a.X, bind))
 	case *ssa.Global:
-		ms.whole("G." + a.Pkg.Pkg.Path() + "." + a.Name())
+		gname := "G." + a.Pkg.Pkg.Path() + "." + a.Name()
+		w.globalSorts[gname] = w.sortOf(a.Type().(*types.Pointer).Elem())
+		ms.whole(gname)
 	default:
 		pt, ok := addr.Type().Underlying().(*types.Pointer)
 		if !ok {
@@ -147,7 +149,7 @@ func (fr *Frame) modCall(ci ssa.CallInstruction, ms *modSet, bind map[*ssa.FreeV
 		switch b.Name() {
 		case "append", "copy":
 			st := c.Args[0].Type().Underlying().(*types.Slice)
-			ms.whole(heapSliceName(w.sortOf(st.Elem())))
+			ms.whole(heapSliceNameT(st.Elem()))
 		}
 		return
 	}
@@ -294,7 +296,7 @@ func (fr *Frame) modContract(fc *FuncContract, c *ssa.CallCommon, ms *modSet, bi
 							continue
 						case "elems":
 							if st, ok := args[i].Type().Underlying().(*types.Slice); ok {
-								ms.whole(heapSliceName(w.sortOf(st.Elem())))
+								ms.whole(heapSliceNameT(st.Elem()))
 								continue
 							}
 						}
@@ -355,16 +357,14 @@ func (fr *Frame) loopHeader(li *loopInfo, b *ssa.BasicBlock, preds []*ssa.BasicB
 	st := fr.cur
 	if ms.all {
 		st.havocAll()
+		fr.assumeGlobals(st)
 		w.assumptions[fmt.Sprintf("loop %d of %s calls code without a frame: all heap state is havocked there", li.ordinal, fr.fn.Name())] = true
 	} else {
 		for _, name := range sortedKeys(ms.m) {
 			t := ms.m[name]
-			so, ok := w.heapSorts[name]
-			if !ok {
-				so = fr.guessHeapSort(name)
-				if so == "" {
-					continue
-				}
+			so := w.heapSortOfName(name)
+			if so == "" {
+				enc.unsup("loop %d writes heap variable %s whose sort is unknown", li.ordinal, name)
 			}
 			cur := st.Get(name, so)
 			pointwise := !t.whole && len(so) > 11 && so[:11] == "(Array Int "
